@@ -25,9 +25,9 @@ Proof. exact coh_implies_Coherent. Qed.
 Print Assumptions C10_coh_is_coherent.
 
 (* what LMDBStorage.add_event queues satisfies the side condition, given what validation guarantees *)
-Theorem C10_add_event_ok : forall valid now d raw a b op,
+Theorem C10_add_event_ok : forall valid now d pending raw a b op,
   (forall w, valid w = true -> hex64 (w_id w) = true /\ hex64 (w_pubkey w) = true) -> now <> 0 ->
-  add_event valid now d raw = (a, b, Some op) -> op_ok d op.
+  add_event valid now d pending raw = (a, b, Some op) -> op_ok d op.
 Proof. exact add_event_op_ok. Qed.
 Print Assumptions C10_add_event_ok.
 (* a garbage-collection pass has no side condition *)
